@@ -257,7 +257,7 @@ func (fr *Frame) oname(s string) string {
 }
 
 func (fr *Frame) safety(g Term, kind string, pos token.Pos, cond Term, info string) {
-	if fr.ghost || cond.S == "true" {
+	if fr.ghost || fr.noSafety || cond.S == "true" {
 		return
 	}
 	x := fr.x
